@@ -1,12 +1,13 @@
 #!/usr/bin/env python3
-"""tools/store_seed.py <seed-root> <round-tag> — copy the seeded changes that were fully confirmed
+"""tools/store_seed.py <seed-root> <round-tag> <matrix-file> <verify-result-files...> — copy the seeded changes that were fully confirmed
 (RESULT lines of tools/verify_seed.sh in /tmp/seedverify*.txt: demo passes on HEAD, fails with the patch,
 suite green with the patch) into /verif/seeded/<Cxx>-<tag>mK/ with patch.diff, the demonstration and meta.json."""
 import sys, os, json, glob, re, shutil
-root, tag = sys.argv[1], sys.argv[2]
+root, tag, matrix = sys.argv[1], sys.argv[2], sys.argv[3]
+verify_files = sys.argv[4:]
 VERIF = os.path.dirname(os.path.dirname(os.path.abspath(__file__)))
 res = {}
-for f in glob.glob('/tmp/seedverify*.txt'):
+for f in verify_files:
     for l in open(f):
         m = re.match(r'RESULT (\S+) demo_clean=(\S+) demo_patched=(\S+) suite=(\S+)', l)
         if m:
@@ -16,7 +17,7 @@ for f in glob.glob('/tmp/seedverify*.txt'):
                 d['suite'] = cur['suite']
             res[m.group(1)] = d
 caught = {}
-for f in sorted(glob.glob('/tmp/seedmatrix*%s*.txt' % ('' if tag == 'r1' else tag)) + (glob.glob('/tmp/seedmatrix[0-9]*.txt') if tag == 'r1' else [])):
+for f in [matrix]:
     for l in open(f):
         m = re.match(r'(C\d\d/m\d): (\S+) own=(\S+) others=(.*)', l)
         if m:
